@@ -46,11 +46,15 @@ def make_installation(gen, rnd, *, modes=None, fans=None, ac_ids=None, sensors=N
         ab["fans"] = {k: bool(f >> j & 1) for j, k in enumerate(fan_keys)}
         if gen == 4:
             ab["min_sp"], ab["max_sp"] = rnd.randint(14, 19), rnd.randint(27, 32)
-            if ab.get("groups") is not None:
-                pass
         else:
             ab["min_cool"], ab["max_cool"] = rnd.randint(14, 19), rnd.randint(27, 31)
             ab["min_heat"], ab["max_heat"] = rnd.randint(15, 20), rnd.randint(28, 32)
+        if rnd.random() < 0.12:
+            # a unit that allows exactly one set-point (min == max)
+            one = rnd.randint(18, 28)
+            for k in ("min_sp", "max_sp", "min_cool", "max_cool", "min_heat", "max_heat"):
+                if k in ab:
+                    ab[k] = one
             st["mode_code"] = rnd.choice([0, 1, 2, 3, 4, 8, 9])
     inst["timers"] = {}
     for i, a in enumerate(inst["acs"]):
